@@ -56,11 +56,12 @@ class Acc:
         self.extra = Counter()
         self.notes = {}  # key -> set of small strings
         self.caps = []
+        self.block = None  # the block being evaluated (set by the worker)
 
     def violation(self, key: str, case: dict, detail: str):
         cur = self.viol.get(key)
         if cur is None:
-            self.viol[key] = [1, case, detail]
+            self.viol[key] = [1, case, detail, self.block]
         else:
             cur[0] += 1
             if _case_order(case) < _case_order(cur[1]):
@@ -80,10 +81,10 @@ class Acc:
         self.nstates += o.nstates
         self.outcomes.update(o.outcomes)
         self.nontrivial += o.nontrivial
-        for k, (n, case, detail) in o.viol.items():
+        for k, (n, case, detail, blk) in o.viol.items():
             cur = self.viol.get(k)
             if cur is None:
-                self.viol[k] = [n, case, detail]
+                self.viol[k] = [n, case, detail, blk]
             else:
                 cur[0] += n
                 if _case_order(case) < _case_order(cur[1]):
@@ -106,6 +107,7 @@ _EVAL = None
 
 def _worker(block):
     acc = Acc()
+    acc.block = block
     t = time.time()
     try:
         _EVAL(block, acc)
@@ -146,6 +148,33 @@ def sweep(blocks, eval_block, acc: Acc = None, workers=None, label=""):
                 raise Broken(f"harness error in block {blk!r}:\n{res}")
             acc.merge(res)
     return acc
+
+
+def replay_block(block):
+    """Evaluate one block in a freshly forked child of this process; returns [(key, detail)]."""
+    import pickle
+
+    r, w = os.pipe()
+    pid = os.fork()
+    if pid == 0:
+        try:
+            os.close(r)
+            a = Acc()
+            a.block = block
+            try:
+                _EVAL(block, a)
+                out = [(k, v[2]) for k, v in a.viol.items()]
+            except BaseException:  # noqa: BLE001
+                out = [("<block replay crashed>", traceback.format_exc())]
+            with os.fdopen(w, "wb") as f:
+                pickle.dump(out, f)
+        finally:
+            os._exit(0)
+    os.close(w)
+    with os.fdopen(r, "rb") as f:
+        data = f.read()
+    os.waitpid(pid, 0)
+    return pickle.loads(data)
 
 
 class Broken(Exception):
@@ -290,26 +319,37 @@ def finish(
     os.makedirs(rdir, exist_ok=True)
     nviol = 0
     lines = []
+    unreproducible = []
     seen_known = set()
     unknown = [k for k in sorted(acc.viol) if k not in known]
     skipped = unknown[MAX_REPLAYED:]
     for key in sorted(acc.viol):
-        n, case, detail = acc.viol[key]
+        n, case, detail, blk = acc.viol[key]
         if key in skipped:
             continue  # a flood of distinct findings: the first MAX_REPLAYED are replayed and reported in full
         # determinism: replay twice without the explorer, same finding key both times
-        for _ in range(2):
+        for attempt in range(2):
             try:
-                got = replay_case(case)
+                got = replay_case(case) if "__block__" not in case else replay_block(case["__block__"])
             except BaseException:
                 print(f"BROKEN: replay of {key} crashed:\n{traceback.format_exc()}")
                 sys.exit(2)
             if key not in [k for k, _ in got]:
-                print(
-                    f"BROKEN: replay of case for key {key!r} did not reproduce it "
-                    f"(got {[k for k, _ in got]}); case={json.dumps(case, default=str)}"
+                # the single case does not fail on its own: does the block it came from (executed from the
+                # pristine state in a fresh process, i.e. the complete history of that case) fail again?
+                if attempt == 0 and blk is not None and _EVAL is not None:
+                    case = {"__block__": blk, "note": "history-dependent: the single case passes alone; replay re-executes its block", "single_case": case}
+                    got = replay_block(blk)
+                    if key in [k for k, _ in got]:
+                        continue
+                unreproducible.append(key)
+                lines.append(
+                    f"UNREPRODUCIBLE: finding {key!r} was observed during exploration but neither its case nor its block "
+                    f"reproduced it (got {[k for k, _ in got][:3]}); not reported as a violation"
                 )
-                sys.exit(2)
+                break
+        if unreproducible and unreproducible[-1] == key:
+            continue
         if key in known:
             seen_known.add(key)
             lines.append(
@@ -377,6 +417,9 @@ def finish(
         json.dump(ev, f, indent=1, default=str)
     for ln in lines:
         print(ln)
+    if unreproducible and not nviol:
+        print(f"BROKEN: {len(unreproducible)} finding(s) could not be reproduced and none could (nondeterminism outside the harness's control)")
+        sys.exit(2)
     print(
         f"{prop} tier={tier} seed={boot.SEED} executions={acc.evaluations} "
         f"transitions={acc.transitions} states={cov['states']} outcomes={len(acc.outcomes)} "
@@ -385,7 +428,7 @@ def finish(
     sys.exit(1 if nviol else 0)
 
 
-def main(prop, run_tier, replay_case):
+def main(prop, run_tier, replay_case, eval_block=None):
     """Common CLI: --tier quick|thorough | --replay FILE."""
     import argparse
 
@@ -396,7 +439,14 @@ def main(prop, run_tier, replay_case):
     if a.replay:
         with open(a.replay) as f:
             rec = json.load(f)
-        got = replay_case(rec["case"])
+        global _EVAL
+        if "__block__" in rec["case"]:
+            _EVAL = eval_block
+            blk = rec["case"]["__block__"]
+            blk = tuple(tuple(x) if isinstance(x, list) and False else x for x in blk) if isinstance(blk, list) else blk
+            got = replay_block(blk)
+        else:
+            got = replay_case(rec["case"])
         print(json.dumps({"expected_key": rec.get("key"), "observed": got}, indent=1, default=str))
         if rec.get("key") in [k for k, _ in got]:
             print(f"VIOLATION property={prop} replay={a.replay}")
